@@ -19,8 +19,10 @@ THEOREMS = ["C11_appends_firstn", "C11_append_multivalue", "C11_append_subfeatur
             "C11_sub_one", "C11_sub_two_columns", "C11_sub_two", "C11_target_control", "C11_append_checker_sound",
             "C11_rule_checker_sound", "C11_noise_checker_sound"]
 
+# whitespace-padded tokens are tokens of their own (' a', 'a ', ' ', '\tb' are not 'a' / '' / 'b')
+PADDED = [" a", "a ", " ", "\tb", " b", "b ", "a  ", "  "]
 TOKENS = ["a", "ab", "abc", "b", "bc", "", "x1", "é", "1", "11", "{}", "NA", "c", "A", "ß", "\U0001d11e", "a b", "0"]
-VALUES = ["", "1", "11", "a", "b", "ab", "a&b", "&", "AND", "x AND y", "é", "0", "1&1", "y", "x", "aANDb", "-", "|"]
+VALUES = ["", " ", "  ", "\t", "a|b", "1", "11", "a", "b", "ab", "a&b", "&", "AND", "x AND y", "é", "0", "1&1", "y", "x", "aANDb", "-", "|"]
 NUMS = ["0", "1", "2", "3.5", "-1", "10", "100", "0.25", "", "7", "-2.5", "1e2", '"4"', "12", "5", "0.0"]
 NAME_POOL = ["a", "b", "f", "x", "é", "0", "c d", "w|z", "n&m", "u_v", "k:"]
 
@@ -40,6 +42,8 @@ def plain_column(rng, nrows):
 
 def mv_column(rng, nrows):
     toks = [rng.choice(TOKENS) for _ in range(rng.randint(2, 6))]
+    if rng.random() < 0.45:
+        toks += ["a", "b"] + rng.sample(PADDED, rng.randint(2, 4))
     col = []
     for _ in range(nrows):
         k = rng.choice([0, 1, 1, 2, 2, 3, 4])
@@ -75,6 +79,8 @@ def make_frame(rng, nf, nrows, kinds=None):
 
 
 def nrows_of(rng, big=80):
+    if rng.random() < 0.06:
+        return rng.randint(1, 2)               # one-row and two-row frames (direct constructor calls)
     return rng.randint(5, 20) if rng.random() < 0.6 else rng.randint(20, big)
 
 
@@ -114,8 +120,16 @@ def gen_transform(rng):
     kinds = ["num"] * nnum + ["plain"] * (nf - nnum)
     rng.shuffle(kinds)
     names, rows, label, feats = make_frame(rng, nf, nrows_of(rng, 60), kinds)
-    return {"kind": "transform", "names": names, "rows": rows, "label": label,
-            "numeric": [f for f, k in zip(feats, kinds) if k == "num"],
+    numeric = [f for f, k in zip(feats, kinds) if k == "num"]
+    plain = [f for f, k in zip(feats, kinds) if k != "num"]
+    if plain and rng.random() < 0.35:
+        # an INPUT column already named like a constructed feature ('price_tr_sqrt' next to numeric 'price'): the result has two
+        # columns of that name and is judged by position (the first len(input) columns are the input, unchanged).  Direct call
+        # only: compute_batch_ranking itself raises on the unchanged tree once two columns share a name (compute_cardinalities).
+        clash = rng.choice(numeric) + rng.choice(["_tr_sqrt", "_tr_log(x+1)", "_tr_sqrt(abs(x))", "_tr_log(abs(x)+1)"])
+        if clash not in names:
+            names = [clash if n == plain[0] else n for n in names]
+    return {"kind": "transform", "names": names, "rows": rows, "label": label, "numeric": numeric,
             "transformers": rng.choice(["minimal", "default", "minimal,default"])}
 
 
@@ -207,6 +221,19 @@ def gen_batch_raw(rng, force_noise=False):
     if force_noise and c["heuristic"] == "Constant":
         c["heuristic"] = "MI-numba-randomized"
     return c
+
+
+def round6_cases():
+    return [
+        {"kind": "multivalue", "names": ["m", "label"], "label": "label", "explode": "m", "missing": ",{}",
+         "rows": [["a, b", "0"], [" a", "1"], ["a ", "0"], [" ", "1"], ["\tb-b", "0"], ["a,b", "1"]]},
+        {"kind": "transform", "names": ["price", "price_tr_sqrt", "label"], "label": "label", "numeric": ["price"],
+         "transformers": "minimal", "rows": [["1", "x", "0"], ["4", "y", "1"], ["9", "x", "0"], ["16", "z", "1"], ["25", "y", "0"]]},
+        {"kind": "sub", "names": ["a", "b", "label"], "label": "label", "mapping": "a->b;a<->b",
+         "rows": [["", " ", "0"], [" ", "", "1"], ["x&y", "z", "0"], ["x", "y&z", "1"], ["AND", "|", "0"], ["\t", "AND", "1"]]},
+        {"kind": "multivalue", "names": ["m", "label"], "label": "label", "explode": "m", "missing": ",{}", "rows": [["a-b ,c", "0"]]},
+        {"kind": "sub", "names": ["a", "b", "label"], "label": "label", "mapping": "a<->b", "rows": [["x", "y", "0"], ["x", "y", "1"]]},
+    ]
 
 
 def fixed_cases():
@@ -595,7 +622,7 @@ def check(run, replay):
     if replay is not None:
         cases = [replay["case"]]
     else:
-        cases = load_corpus("C11") + fixed_cases()
+        cases = load_corpus("C11") + fixed_cases() + round6_cases()
         q = run.tier == "quick"
         plan = [(gen_multivalue, 60 if q else 1000), (gen_sub, 60 if q else 1000), (gen_transform, 12 if q else 150),
                 (gen_noise, 15 if q else 200), (gen_combined, 12 if q else 150), (gen_batch, 50 if q else 800)]
